@@ -37,9 +37,10 @@ PARTIAL = [
     "C15_progress / C15_leg_count (the lower bound: tokens are fed back for exactly as long as the context is incomplete and tokens keep coming) are stated for runs that RETURN "
     "(bind_run = Ok); for runs that fail the number of legs stepped is bounded above only (C15_stops, C15_fail_closed) -- how far a failing run got is fixed by C15_fail_closed / "
     "C15_error_causes through the position of the offending reply, not by a leg count",
-    "SyncRpcClient.bind is tied to the source only syntactically (C15_flow_bind_twin: the async body with every `await self._wrap_sync(a.m, ..)` replaced by `a.m(..)`): "
-    "`self._auth.step(..)` is a method call on an attribute of a local, whose effect on the provider the interpreter of Prelude/PyAst.v cannot express; the semantic tie "
-    "(C15_flow_async_bind = Handshake.bind_run) is for AsyncRpcClient.bind, the sync flavour rests on the twin theorem plus the trace correspondence handshake.scripts (both flavours)",
+    "both flavours of bind are tied semantically to Handshake.bind_run (C15_flow_async_bind, C15_flow_sync_bind; the sync flavour since Prelude/PyAst.v writes the receiver of "
+    "`self._auth.step(..)` back into `self` along the attribute path, the world saying what storing a provider into self._auth means); C15_flow_bind_twin remains as the syntactic "
+    "relation of the two bodies. Through `run` / run_self only results and the FINAL client state of successful runs are observable: the client state at the moment of an exception "
+    "is not (the interpreter's `res` carries no state) -- the PDUs sent before a failure are pinned by the model theorems (C15_fail_closed) and the trace correspondence only",
     "Handshake.send_pdu is an abstraction (result codes, packet_flags, auth_value of each ack; the transport and PDU decoding are a script of replies): C15_send_pdu_classification "
     "ties its classification of a reply to the source's _process_response (through Seal.process_pdu_as, C16_flow_process_response_as) for replies that DECODE; a reply whose octets do "
     "not decode (PDU.unpack raises) has no Handshake.reply -- the model's scripts do not contain such replies; C12/C05 cover the decoders, and _send_pdu's read loops are C14",
